@@ -849,6 +849,8 @@ class Fn:
     def expr(self, n, env, want="val"):
         """env: {"defined": set of assigned C variables/leaves}.  want: 'val' | 'bool'"""
         k = n.get("kind")
+        if k == "BinaryOperator" and "_hoisted" in n:
+            return n["_hoisted"]
         if k in ("ParenExpr", "ConstantExpr"):
             cv = const_value(n) if k == "ConstantExpr" else None
             if cv is not None:
@@ -1400,11 +1402,21 @@ class Fn:
         if val is None or val != getattr(a, "nbytes", a.ty.n) or val != getattr(b, "nbytes", b.ty.n):
             bad("memcmp/memcpy over something else than the whole of two equally long arrays", n)
 
+    def real_calls(self, n):
+        """does the expression contain a call that has to be hoisted (translated, external or inlined function)?"""
+        if n.get("kind") == "CallExpr":
+            name = self.callee_name(n)
+            if self.is_extern(name) or name in self.translated or self.inlinable(name):
+                return True
+        return any(self.real_calls(c) for c in n.get("inner", []) if isinstance(c, dict))
+
     def find_calls(self, n, strict=True, out=None):
         """translated-function calls in evaluation order; rejects those under short-circuit operators"""
         if out is None:
             out = []
         k = n.get("kind")
+        if k == "BinaryOperator" and "_hoisted" in n:
+            return out              # a short-circuit operator whose value has been computed (with_calls)
         if k == "BinaryOperator" and n.get("opcode") in ("&&", "||"):
             self.find_calls(n["inner"][0], strict, out)
             self.find_calls(n["inner"][1], False, out)
@@ -1758,6 +1770,43 @@ class Fn:
     # ---- statements (continuation-passing) -----------------------------------------------
     def with_calls(self, exprs, env, k):
         """hoist all translated calls of the expression nodes, then continue with k(env)"""
+        # `A || B` / `A && B` as a whole expression (condition, initialiser, return value, right side of an assignment) with a call in B:
+        # A is evaluated first (with its calls); B's calls are made only on the branch on which C evaluates B.  The continuation is
+        # duplicated, as for an `if`; the operator node carries its value (`_hoisted`) while the continuation is generated.
+        for e in exprs:
+            if e is None:
+                continue
+            t = e
+            while t.get("kind") == "ParenExpr" or (t.get("kind") == "ImplicitCastExpr" and t.get("castKind") in ("IntegralToBoolean", "IntegralCast", "NoOp")):
+                t = t["inner"][0]
+            if t.get("kind") == "BinaryOperator" and t.get("opcode") in ("||", "&&") and "_hoisted" not in t and self.real_calls(t["inner"][1]):
+                a, b = t["inner"]
+                is_or = t["opcode"] == "||"
+
+                def after_a(env2, t=t, a=a, b=b, is_or=is_or):
+                    va = self.as_bool(self.expr(a, env2, "bool"))
+
+                    def short(env3):
+                        t["_hoisted"] = V("true" if is_or else "false", Ty("bool"), const=is_or)
+                        r = self.with_calls(exprs, copy_env(env3), k)
+                        t.pop("_hoisted", None)
+                        return r
+
+                    def long_(env3):
+                        def after_b(env4):
+                            vb = self.as_bool(self.expr(b, env4, "bool"))
+                            t["_hoisted"] = V(vb.text, Ty("bool"), const=vb.const)
+                            r = self.guarded(vb.guards, self.with_calls(exprs, copy_env(env4), k))
+                            t.pop("_hoisted", None)
+                            return r
+                        return self.with_calls([b], copy_env(env3), after_b)
+                    if va.const is not None:
+                        body = short(env2) if bool(va.const) == is_or else long_(env2)
+                    else:
+                        s_txt, l_txt = short(env2), long_(env2)
+                        body = "if %s then\n%s\nelse\n%s" % (va.text, indent(paren(s_txt if is_or else l_txt), 2), indent(paren(l_txt if is_or else s_txt), 2))
+                    return self.guarded(va.guards, body)
+                return self.with_calls([a], env, after_a)
         calls = []
         for e in exprs:
             if e is not None:
